@@ -637,6 +637,44 @@ def _sup_names(items):
 
 COLLIDING_PAIRS = [('IOBusy', 'IoBusy'), ('Ab', 'AB'), ('HTTPServer', 'HttpServer'), ('T', 't'), ('OK', 'Ok'), ('Q2', 'q2')]
 
+def repeat_variant(d, rng):
+    """d with keys written twice, the overridden (earlier) occurrence being wrong or different: the definition
+    means the same as d, because the last occurrence of a key is the one that counts"""
+    m = _copy(d)
+    si, ei = _states_item(m), _events_item(m)
+    changed = False
+    if ei is not None:
+        for bi, (n, items) in enumerate(m[ei][1]):
+            new_items = []
+            for e in items:
+                if e[0] == 'transition' and rng.random() < 0.6:
+                    tr = list(e[1])
+                    k = rng.random()
+                    if k < 0.4:
+                        tr.insert(0, ('to', 'Nowhere'))
+                    elif k < 0.7:
+                        tr.insert(0, ('from', ['Nowhere', 'Elsewhere'], True))
+                    else:
+                        tr.insert(0, ('guards', ['overridden_g'], True)) if any(t[0] == 'guards' for t in tr) else tr.insert(0, ('to', 'Nowhere'))
+                    new_items.append(('transition', tr))
+                    changed = True
+                elif e[0] in HOOKS and rng.random() < 0.4:
+                    new_items.append((e[0], ['overridden_h'], True))
+                    new_items.append(e)
+                    changed = True
+                elif e[0] == 'payload' and rng.random() < 0.5:
+                    new_items.append(('payload', ['i64']))
+                    new_items.append(e)
+                    changed = True
+                else:
+                    new_items.append(e)
+            m[ei][1][bi] = (n, new_items)
+    ini = [it for it in m if it[0] == 'initial']
+    if ini and rng.random() < 0.5:
+        m.insert(1, ('initial', 'Nowhere'))
+        changed = True
+    return m if changed else None
+
 def collide_variant(d, rng):
     """d with two of its states renamed to a pair of distinct identifiers that have the same snake_case
     form (the derived field / accessor names coincide); exactly one of the two carries data, so the
@@ -834,6 +872,13 @@ def mutations(d, rng):
                         m = _copy(d)
                         m[ei][1][bi][1][ti] = ('transition', [('to_list', lst) if t[0] == 'to' else t for t in e[1]])
                         out.append(('R9-target-list', m))
+                # R10 with a repeated key: the LAST `to:` / `from:` of a block is the one that counts
+                m = _copy(d)
+                m[ei][1][bi][1][ti] = ('transition', list(e[1]) + [('to', 'Nowhere')])
+                out.append(('R10-target-undeclared-repeated-last', m))
+                m = _copy(d)
+                m[ei][1][bi][1][ti] = ('transition', list(e[1]) + [('from', ['Nowhere'], True)])
+                out.append(('R10-source-undeclared-repeated-last', m))
                 # R10 undeclared source / target
                 m = _copy(d)
                 m[ei][1][bi][1][ti] = ('transition', [('to', 'Nowhere') if t[0] == 'to' else t for t in e[1]])
